@@ -102,7 +102,7 @@ def cases(draw, tier="quick"):
             else:
                 cons.append({"kind": "scalar", "lhs": extra, "sense": "<=", "rhs": ["const", "pyfloat", 3.0]})
     perm = draw(st.permutations(list(range(len(cons)))))
-    return {"env": env, "objective": obj, "constraints": cons, "stratum": stratum, "perm": list(perm),
+    return {"env": env, "objective": obj, "constraints": cons, "stratum": stratum, "perm": list(perm), "deep_algorithms": draw(st.integers(0, 5)) == 0,
             "sense": draw(st.sampled_from(["minimize", "maximize"]))}
 
 
